@@ -27,7 +27,7 @@ ASSUMPTIONS = [
 COMPONENTS = {"real": ["TradingEnv.step", "Broker.rebalance/net_liquidation_value", "rewards.*", "Transmitter", "Exchange"],
               "harness": ["shock generator", "independent Fraction ledger"], "stub": []}
 PROBE_FLOORS = {"ruin_on_arrival": 21, "ruin_post_trade": 100, "ruin_exactly_zero": 20, "ruin_on_first_step": 36,
-                "ruin_by_own_costs": 50, "steps_attempted_after_end": 300, "recovery_after_ruin": 50, "reset_after_ruin_works": 20, "ruin_inside_spread_band": 12}
+                "ruin_by_own_costs": 50, "steps_attempted_after_end": 300, "recovery_after_ruin": 50, "reset_after_ruin_works": 20, "ruin_inside_spread_band": 12, "end_of_episode_handler_failed": 10}
 
 
 def generate(rng, i):
@@ -118,6 +118,9 @@ def generate(rng, i):
     }
     if rng.random() < 0.15:
         env["delay"] = 1
+    if rng.random() < 0.15:
+        # fault: user code that handles the end-of-episode notification fails (e.g. it values a broke account)
+        env["state"]["crash_on"] = ["EventDone"]
     own_step = rng.randint(0, n - 3) if phase == "own_costs" else None
     liquidate_when_broke = phase == "latent" and rng.random() < 0.5
     script = [{"op": "reset", "env": 0, "fold": None, "np_seed": rng.randrange(2 ** 31)}]
@@ -252,6 +255,15 @@ def execute(scenario):
                             op=k, phase=phase, escaped="none", raised_in="returned_not_done")
                     break
                 ended, ended_how = True, "done_at_ruin"
+                continue
+            if st.get("exc") == "InjectedCrash":
+                # the injected failure of the end-of-episode handler: the notification is only ever sent for an
+                # episode that has ended, so the episode must be closed whatever the handler did
+                probe("end_of_episode_handler_failed")
+                if not st.get("env_done"):
+                    violate("episode_left_open", "step {}: the end-of-episode notification was sent (its handler failed) but the episode is not marked as ended".format(k), op=k, kind="handler_failed")
+                    break
+                ended, ended_how = True, "data_end_handler_failed"
                 continue
             if st.get("exc") is not None:
                 violate("unexpected_exception", "step {} raised {}: {} [{}] while the account is solvent (NLV {})".format(
